@@ -12,6 +12,7 @@ and the sparse layout handed to the kernel are RECORDED at the call boundary and
 model; Lean evaluates `holds` on the implementation's own result and compares with the model."""
 import itertools
 import math
+import unicodedata
 
 import numpy as np
 
@@ -506,7 +507,9 @@ def gen_extras(rng):
     """rarely used spellings of the arguments, a non-default error profile, bystander tables, layout pokes"""
     return {"seedkind": rng.choice(SEED_KINDS), "npn": rng.random() < 0.15, "positional": rng.random() < 0.15,
             "profile": rng.choice([None, None, None, "raise", "warn", "call"]),
-            "bystanders": rng.random() < 0.3, "poke": rng.randrange(10 ** 6) if rng.random() < 0.3 else None}
+            "bystanders": rng.random() < 0.3, "poke": rng.randrange(10 ** 6) if rng.random() < 0.3 else None,
+            # flags that are falsy-but-not-False / truthy-but-not-True; a generator object used for two calls
+            "flags": rng.choice(["bool", "bool", "np", "int"]), "reuse_generator": rng.random() < 0.5}
 
 
 def seed_object(kind, seed):
@@ -523,12 +526,15 @@ def do_subsample(t, n, axis, mode, seedobj, extras):
     import warnings
     import biom.err as E
     nn = np.int64(n) if extras.get("npn") else n
+    conv = {"np": np.bool_, "int": int}.get(extras.get("flags"), bool)
+    f_id, f_wr = conv(mode == "byid"), conv(mode == "with")
     with warnings.catch_warnings():
-        warnings.simplefilter("ignore")
+        # under the default profile the call has no reason to warn: a warning is an error then
+        warnings.simplefilter("ignore" if extras.get("profile") else "error")
         def call():
             if extras.get("positional"):
-                return t.subsample(nn, axis, mode == "byid", mode == "with", seedobj)
-            return t.subsample(nn, axis=axis, by_id=(mode == "byid"), with_replacement=(mode == "with"), seed=seedobj)
+                return t.subsample(nn, axis, f_id, f_wr, seedobj)
+            return t.subsample(nn, axis=axis, by_id=f_id, with_replacement=f_wr, seed=seedobj)
         if extras.get("profile"):
             with E.errstate(empty=extras["profile"]):
                 return call()
@@ -595,6 +601,13 @@ def table_case(ctx, impls, spec, route, n, axis, mode, seed, tags=(), histories=
                 ctx.diverge(full, "the error profile is not what it was before the call", tg)
                 E.seterr(**err_before)
             r = outcome[3]
+            if extras.get("seedkind") == "generator" and extras.get("reuse_generator") and r is not None:
+                # the same Generator object handed to a second call: it goes on where the first stopped; the
+                # draw is judged with what it answered this time
+                outcome2 = call_recorded(mods, axis, lambda: do_subsample(t, n, axis, mode, seedobj, extras))
+                judge(ctx, dict(case, second_call_same_generator=True), name, t, before, before_full, outcome2, n,
+                      axis, mode, tg + ["generator-reused"], profile)
+                ctx.count("generator object re-used for a second call")
             if bys:
                 check_bystanders(ctx, full, tg, bys, ctx.rng)
             # same seed, spelled as a plain int keyword => the same table
@@ -645,6 +658,49 @@ def late_recheck(ctx):
         ctx.count("late re-check of an early call")
         if o1 != o2:
             ctx.fail(full, "same-seed-same-result", tg + ["late-recheck"], detail={"first": o1, "late": o2})
+
+
+def child_main():
+    """run by hash_seed_recheck in a child interpreter with another PYTHONHASHSEED: prints the results of the calls"""
+    import json
+    import random
+    import sys
+    jobs = json.load(sys.stdin)
+    impls = dict(kernels.kernel_impls())
+    out = []
+    for j in jobs:
+        t = apply_history(core.build(j["spec"], j["route"]), j["h"])
+        if j["poke"] is not None:
+            core.poke_layout(t, random.Random(j["poke"]))
+        with kernels.use_kernels(impls[j["impl"]]):
+            out.append(core.table_obs(do_subsample(t, j["n"], j["axis"], j["mode"], j["seed"], {"profile": None})))
+    sys.stdout.write("RESULTS" + json.dumps(out))
+
+
+def hash_seed_recheck(ctx):
+    """results must not depend on PYTHONHASHSEED (set iteration order): the early calls of the run again, in child
+    interpreters started with other hash seeds"""
+    import json
+    import os
+    import subprocess
+    import sys
+    jobs = [{"spec": spec, "route": route, "h": h, "poke": poke, "n": n, "axis": axis, "mode": mode, "seed": seed,
+             "impl": name} for spec, route, h, poke, n, axis, mode, seed, name, mods, o1, full, tg in ctx._late]
+    if not jobs:
+        return
+    for hs in ("1", "4242"):
+        env = dict(os.environ, PYTHONHASHSEED=hs, PYTHONPATH=core.ROOT + os.pathsep + core.REPO)
+        p = subprocess.run([sys.executable, "-c", "from harness import c12; c12.child_main()"], input=json.dumps(jobs),
+                           capture_output=True, text=True, env=env, cwd=core.ROOT)
+        if p.returncode != 0 or "RESULTS" not in p.stdout:
+            ctx.diverge({"op": "hash-seed-child", "hashseed": hs}, "child interpreter failed", ["table", "hashseed"],
+                        detail=p.stderr[-800:])
+            continue
+        got = json.loads(p.stdout.split("RESULTS", 1)[1])
+        for (spec, route, h, poke, n, axis, mode, seed, name, mods, o1, full, tg), o2 in zip(ctx._late, got):
+            ctx.count("early call repeated under PYTHONHASHSEED=%s" % hs)
+            if json.loads(json.dumps(o1)) != o2:
+                ctx.fail(full, "same-seed-same-result", tg + ["hashseed=" + hs], detail={"first": o1, "child": o2})
 
 
 def refused_calls(ctx, impls, spec, route, axis, history):
@@ -720,6 +776,29 @@ def gen_count_spec(rng, max_n=6, max_m=6):
     return spec
 
 
+def share_names(rng, spec):
+    """the two axes are separate namespaces: the same ID text may name a vector on BOTH axes (co-occurrence /
+    adjacency style tables, square tables indexed by the same names), at different positions"""
+    obs, samp = spec["obs"], spec["samp"]
+    style = rng.choice(["some", "some", "all", "swapped-prefix"])
+    if style == "swapped-prefix":
+        # every name of one axis looks like a name of the other axis
+        spec["obs"], spec["samp"] = ["S" + o[1:] if o[:1] == "O" else o for o in obs], \
+            ["O" + x[1:] if x[:1] == "S" else x for x in samp]
+        if len(set(spec["obs"])) != len(obs) or len(set(spec["samp"])) != len(samp):
+            spec["obs"], spec["samp"] = obs, samp
+        return spec
+    k = min(len(obs), len(samp)) if style == "all" else rng.randint(1, min(len(obs), len(samp)))
+    src = rng.sample(range(len(obs)), k)
+    dst = rng.sample(range(len(samp)), k)
+    new = list(samp)
+    for a, b in zip(src, dst):
+        new[b] = obs[a]
+    if len(set(new)) == len(new):
+        spec["samp"] = new
+    return spec
+
+
 def tricky_ids(rng, spec):
     """ID text: IDs that differ by a trailing blank / newline / case / extension, non-ASCII, very long"""
     for key in ("obs", "samp"):
@@ -728,7 +807,10 @@ def tricky_ids(rng, spec):
             continue
         j, k = rng.sample(range(len(ids)), 2)
         cand = rng.choice([ids[j] + " ", ids[j] + "\n", ids[j] + "0", ids[j].upper(), ids[j].lower(), " " + ids[j],
-                           ids[j] * 9, ids[j] + "é日本"])
+                           ids[j] * 9, ids[j] + "é日本",
+                           # the same text in another Unicode normalisation form is a DIFFERENT ID
+                           unicodedata.normalize("NFD", ids[j] + "é"), unicodedata.normalize("NFC", ids[j] + "é"),
+                           ids[j] + "\u2028", ids[j] + "\u0085", "%s" + ids[j], '"' + ids[j], ids[j] + "%d\\"])
         if cand not in ids:
             ids[k] = cand
     return spec
@@ -871,6 +953,9 @@ def run_all(ctx):
                         rows[i_][j_] = float(rng.randint(1, 4))
         if rng.random() < 0.2:
             tricky_ids(rng, spec)
+        if rng.random() < 0.3:
+            share_names(rng, spec)
+            ctx.count("ID texts shared between the two axes")
         route = rng.choice(core.ROUTES)
         n = pick_n(rng, spec, axis, mode)
         table_case(ctx, impls, spec, route, n, axis, mode, rng.randrange(10 ** 6), ("random",),
@@ -892,7 +977,33 @@ def run_all(ctx):
                    rng.randrange(10 ** 6), ("wide",), extras=gen_extras(rng))
         ctx.count("wide table: %s IDs on the %s axis, subsampled along %s" % (
             ">=64", wide_axis[:4], "it" if axis == wide_axis else "the other"))
+    # more than 512 IDs on an axis
+    for k in range(1 if ctx.quick() else 4):
+        rng = ctx.rng
+        wide_axis = ["sample", "observation"][(k + ctx.seed) % 2]
+        spec = core.wide_spec(rng, n_axis=rng.choice([513, 520, 600]), other=2, axis=wide_axis,
+                              classes=("smallcount",))
+        if k % 2 == 0:
+            share_names(rng, spec)
+        axis = rng.choice(["sample", "observation"])
+        mode = rng.choice(["without", "byid", "with"])
+        table_case(ctx, impls, spec, rng.choice(["dense", "csc", "csr_unsorted"]), pick_n(rng, spec, axis, mode), axis,
+                   mode, rng.randrange(10 ** 6), ("wide", ">512"), histories=[rng.choice(CSC_HISTORIES[:5])],
+                   extras=gen_extras(rng))
+        ctx.count("wide table: >512 IDs on an axis")
+    # degenerate shapes: one axis (or both) without any ID
+    for spec in ({"obs": [], "samp": ["x", "y"], "rows": [], "omd": None, "smd": None, "type": None},
+                 {"obs": ["a", "b"], "samp": [], "rows": [[], []], "omd": None, "smd": None, "type": None},
+                 {"obs": [], "samp": [], "rows": [], "omd": None, "smd": None, "type": None}):
+        for axis in ("sample", "observation"):
+            for mode in ("without", "byid", "with"):
+                table_case(ctx, impls, spec, ctx.rng.choice(["dense", "csr", "csc"]), 2, axis, mode, 5,
+                           ("degenerate-shape",), histories=["fresh", "filter-samp"],
+                           extras={"seedkind": "int", "flags": ctx.rng.choice(["bool", "np", "int"])})
+                ctx.count("degenerate shape %dx%d" % (len(spec["obs"]), len(spec["samp"])))
     late_recheck(ctx)
+    if ctx.mine(0):
+        hash_seed_recheck(ctx)
 
 
 def replay(ctx, rec):
